@@ -28,6 +28,10 @@ pub enum WOp {
     ServerFlush,
     /// drop everything on client c's link in the given directions (bit 0 c->s, bit 1 s->c) for len_ms
     Blackout { c: u8, dirs: u8, len_ms: u32 },
+    /// a late duplicate of a handshake / disconnect frame that really travelled between client c and the server
+    /// earlier (selected among those on the wire so far), delivered again now in its original direction
+    #[serde(alias = "ReplayHandshake")]
+    ReplayControl { c: u8, to_server: bool, sel: u16 },
 }
 
 #[derive(Clone, Debug, Serialize, Deserialize)]
@@ -73,6 +77,10 @@ pub struct ScriptParams {
     pub timeouts: Vec<u32>,
     pub big_jumps: bool,
     pub settle_us: u64,
+    /// weight of late duplicates of genuine handshake / disconnect frames
+    pub replay_weight: u32,
+    /// generate servers whose limits are at or below the number of clients, with handshake errors on or off
+    pub vary_server_limits: bool,
 }
 
 pub fn fate_strategy(faults: bool) -> BoxedStrategy<Fate> {
@@ -124,6 +132,7 @@ pub fn wop_strategy(p: &ScriptParams) -> BoxedStrategy<WOp> {
         p.drop_weight => (0..nc).prop_map(|c| WOp::ServerDrop { c }),
         2 => (0..nc).prop_map(|c| WOp::ClientFlush { c }),
         2 => Just(WOp::ServerFlush),
+        p.replay_weight => (0..nc, any::<bool>(), any::<u16>()).prop_map(|(c, to_server, sel)| WOp::ReplayControl { c, to_server, sel }),
         if p.faults { 2 } else { 0 } => (0..nc, 1u8..4, prop_oneof![3 => 10u32..2_000, 2 => 2_000u32..30_000, 1 => Just(10_000_000u32)]).prop_map(|(c, dirs, len_ms)| WOp::Blackout { c, dirs, len_ms }),
     ]
     .boxed()
@@ -131,16 +140,22 @@ pub fn wop_strategy(p: &ScriptParams) -> BoxedStrategy<WOp> {
 
 pub fn wcase_strategy(p: &ScriptParams) -> BoxedStrategy<WCase> {
     let settle = p.settle_us;
+    let limits = if p.vary_server_limits {
+        prop_oneof![3 => Just((4096u32, 32u32)), 2 => (1u32..=p.max_clients.max(1) as u32 + 1, 1u32..=p.max_clients.max(1) as u32 + 1)].boxed()
+    } else {
+        Just((4096u32, 32u32)).boxed()
+    };
+    let hs_errors = if p.vary_server_limits { any::<bool>().boxed() } else { Just(true).boxed() };
     (
-        any::<u64>(),
+        (any::<u64>(), limits, hs_errors),
         proptest::sample::select(p.timeouts.clone()),
         proptest::collection::vec(wclient_strategy(p), 1..=p.max_clients.max(1)),
         proptest::collection::vec(wop_strategy(p), 1..p.max_ops.max(2)),
         prop_oneof![Just(10_000u32), Just(30_000u32), Just(100_000u32), Just(500_000u32)],
     )
-        .prop_map(move |(seed, server_timeout, clients, ops, settle_step_us)| WCase {
+        .prop_map(move |((seed, (max_total, max_active), handshake_errors), server_timeout, clients, ops, settle_step_us)| WCase {
             seed,
-            server: ServerCfg { ep: EpCfg { active_timeout_ms: server_timeout, keepalive_interval_ms: 1000, ..EpCfg::default() }, ..ServerCfg::default() },
+            server: ServerCfg { max_total, max_active, handshake_errors, ep: EpCfg { active_timeout_ms: server_timeout, keepalive_interval_ms: 1000, ..EpCfg::default() } },
             clients,
             ops,
             settle_step_us,
@@ -288,6 +303,20 @@ pub fn run_script(c: &WCase) -> WorldLog {
                 }
             }
             WOp::ServerFlush => w.flush_server(),
+            WOp::ReplayControl { c: k, to_server, sel } => {
+                let k = *k as usize % n;
+                if let Some(i) = ci[k] {
+                    let addr = w.clients[i].addr;
+                    let saddr = w.server_addr;
+                    let (from, to) = if *to_server { (addr, saddr) } else { (saddr, addr) };
+                    let cands: Vec<usize> = w.wire.iter().enumerate().filter(|(_, r)| r.from == from && r.to == to && r.bytes.first().map_or(false, |b| *b < 10)).map(|(j, _)| j).collect();
+                    if !cands.is_empty() {
+                        let j = cands[crate::engine::pick_index(*sel, cands.len())];
+                        let bytes = w.wire[j].bytes.clone();
+                        w.send_raw(from, to, &bytes, 0);
+                    }
+                }
+            }
             WOp::Blackout { c: k, dirs, len_ms } => {
                 let k = *k as usize % n;
                 if let Some(i) = ci[k] {
